@@ -38,12 +38,21 @@ def cases(draw, tier):
                 "warm_wide": draw(st.booleans())}  # the same algorithm object (or the default) first decomposes a 2 x 500001 operator
     fn = draw(st.sampled_from(["svd", "svd", "pinv"]))
     kind = draw(st.sampled_from(["dense", "dense", "dense", "eye", "diag", "smul", "perm", "herm", "psd_ann", "prod", "prod", "sum",
-                                 "dense_spread", "scaled_stiefel", "scaled_stiefel", "graded_cols"]))
+                                 "dense_spread", "scaled_stiefel", "scaled_stiefel", "graded_cols", "very_wide", "kron"]))
     lim = 8 if tier == "quick" else 12
     m, n = draw(st.integers(1, lim)), draw(st.integers(1, lim))
+    if kind == "very_wide":
+        # one side at least eight times the other (2 x 16 ... 4 x 40), wide or tall
+        m = draw(st.integers(2, 4))
+        n = m * draw(st.integers(8, 10))
+        if draw(st.booleans()):
+            m, n = n, m
+        kind = "dense"
+    elif kind == "kron":
+        m, n = draw(st.sampled_from([4, 6, 9])), draw(st.sampled_from([4, 6]))
     if kind == "scaled_stiefel":
         m, n = max(m, n), min(m, n)  # tall (or square): orthonormal columns times a scalar
-    elif kind not in ("dense", "prod", "sum", "dense_spread", "graded_cols"):
+    elif kind not in ("dense", "prod", "sum", "dense_spread", "graded_cols", "kron"):
         n = m
     if kind == "graded_cols" and fn == "svd":
         kind = "dense"
@@ -111,6 +120,15 @@ def build(case):
         c = [3.0, 0.25, -2.0, 0.5][seed % 4] * (np.exp(0.7j) if cplx and seed % 3 == 0 else 1.0)
         Qop = (cola.Unitary if m == n and seed % 2 else cola.Stiefel)(ops.Dense(Q))
         return (c * Qop if seed % 5 else Qop / (1.0 / c)), c * Q
+    if kind == "kron":
+        # Kronecker product of two dense factors with well separated singular values (products of the factors')
+        def fac(a, b, sd, base):
+            rr = min(a, b)
+            return (KR.rand_unitary(a, sd, cplx)[:, :rr] * (base ** np.arange(rr))) @ KR.rand_unitary(b, sd + 1, cplx)[:, :rr].conj().T
+        a1 = [d for d in (2, 3) if m % d == 0][0]
+        b1 = [d for d in (2, 3) if n % d == 0][0]
+        F1, F2 = fac(a1, b1, seed, 1.7), fac(m // a1, n // b1, seed + 5, 1.31)
+        return ops.Kronecker(ops.Dense(F1), ops.Dense(F2)), np.kron(F1, F2)
     if kind == "graded_cols":
         # well-conditioned core with columns rescaled over four decades (badly scaled unknowns); wide, square or tall
         s = 1.0 * 1.2 ** (np.arange(r) + 0.3 * rng.random(r))
@@ -266,7 +284,7 @@ def check(case, out):
         else:
             out.fail("factors", site, "count", f"{kk} triplets returned for k={k}, min(m,n)={r}")
             return
-        if krylov and kk != k and case["kind"] in ("dense", "herm", "psd_ann", "prod", "sum"):  # structural rules may return their full exact decomposition
+        if krylov and kk != k and case["kind"] in ("dense", "herm", "psd_ann", "prod", "sum", "kron"):  # structural rules may return their full exact decomposition
             out.fail("factors", site, "count", f"Krylov algorithm returned {kk} triplets for k={k}")
             return
         err = np.abs(rec - target).max()
